@@ -3,7 +3,6 @@ package main
 import (
 	"encoding/json"
 	"fmt"
-	"os"
 	"path/filepath"
 	"strings"
 
@@ -40,9 +39,57 @@ func init() {
 
 func (c06Engine) Plan(tier string) []Phase { return []Phase{{Mode: "random", Share: 1}} }
 
+// damageOneBlock: a save that went wrong in the middle of one top-level block - its body loses
+// the closing line, or one of its rule names is mangled. Unlike a random bit flip this nearly
+// always makes exactly that block unparsable while its name stays known to the rest.
+func damageOneBlock(p *Project, r *Rand) bool {
+	type loc struct{ fi, start, end int }
+	var locs []loc
+	for fi, f := range p.Files {
+		off := 0
+		bl := splitBlocks(string(f.Data))
+		for _, b := range bl {
+			if strings.HasPrefix(b, "TYPE ") || strings.HasPrefix(b, "ENUM ") || strings.HasPrefix(b, "GET ") || strings.HasPrefix(b, "POST ") || strings.HasPrefix(b, "URL ") {
+				locs = append(locs, loc{fi, off, off + len(b)})
+			}
+			off += len(b)
+		}
+	}
+	if len(locs) == 0 {
+		return false
+	}
+	l := locs[r.Intn(len(locs))]
+	f := &p.Files[l.fi]
+	block := string(f.Data[l.start:l.end])
+	switch r.Intn(3) {
+	case 0: // the last non-empty line is lost
+		t := strings.TrimRight(block, "\r\n \t")
+		if i := strings.LastIndexByte(t, '\n'); i > 0 {
+			block = t[:i+1]
+		}
+	case 1: // a rule name is mangled
+		for _, rn := range []string{"{min:", "{minLength:", "{optional:", "{enum:", "{allOf:"} {
+			if i := strings.Index(block, rn); i >= 0 {
+				block = block[:i+2] + "x" + block[i+2:]
+				break
+			}
+		}
+	default: // an opening brace becomes a bracket
+		if i := strings.IndexByte(block, '{'); i >= 0 {
+			block = block[:i] + "[" + block[i+1:]
+		}
+	}
+	f.Data = []byte(string(f.Data[:l.start]) + block + string(f.Data[l.end:]))
+	p.Features = append(p.Features, "prefault:damaged-block")
+	return true
+}
+
 func corruptBeforeBuild(p *Project, r *Rand) {
 	p.Kind = "pre-build-byte-faults"
 	p.Valid = false
+	if r.Chance(1, 2) && damageOneBlock(p, r) {
+		return
+	}
 	for i := 0; i < r.Range(1, 3); i++ {
 		f := &p.Files[r.Intn(len(p.Files))]
 		if len(f.Data) == 0 {
@@ -122,8 +169,8 @@ func (c06Engine) Gen(job *Job) *Case {
 			}
 		}
 		e.Prior = 0
-		if r.Chance(1, 3) {
-			e.Prior = r.Range(1, 2)
+		if r.Chance(1, 2) {
+			e.Prior = r.Range(1, 3)
 		}
 		if !fresh && i == n-1 && r.Chance(1, 10) {
 			// a fresh process under the canonical map order: isolates "new process" from "other map order"
@@ -140,29 +187,36 @@ func (c06Engine) Gen(job *Job) *Case {
 // canonical text of everything observable.
 func observe(c *Case, e Env, seed uint64) (text string, permuted []string) {
 	simrt.SetOSHook(nil)
+	// one pool session for the prior history and the observed build: what earlier builds leave
+	// in a pool is there for the next one, like in a long-lived process
+	canonicalEnv()
+	pol := e.Pool
+	if pol == simrt.PoolReal {
+		pol = simrt.PoolIsolating
+	}
+	simrt.PoolSimBegin(simrt.PoolConfig{Policy: pol}, seed)
 	if e.Prior > 0 {
-		canonicalEnv()
 		pr := NewRand(seed ^ 0x5151)
 		for i := 0; i < e.Prior; i++ {
-			q := genValid(pr.Fork())
-			if pr.Chance(1, 2) {
+			var q *Project
+			switch pr.Intn(4) {
+			case 0:
+				q = genValid(pr.Fork())
+			case 1:
 				q = genMultiDefect(pr.Fork())
+			default:
+				// an older, broken version of the SAME project (the edit-build-fix cycle of an editor
+				// or a server that rebuilds on save): same names, some bytes damaged
+				q = c.Project.Clone()
+				corruptBeforeBuild(q, pr)
 			}
-			cwd, _ := os.Getwd()
-			dir := filepath.Join(cwd, "prior")
-			os.RemoveAll(dir)
-			for _, f := range q.Files {
-				fp := filepath.Join(dir, f.Path)
-				os.MkdirAll(filepath.Dir(fp), 0o755)
-				os.WriteFile(fp, f.Data, 0o644)
-			}
+			must(MaterialiseAt("prior", q.Files))
 			if o := BuildPath(filepath.Join("prior", q.Root)); o.OK {
 				call(o.japi, "ToJson")
 				call(o.japi, "ToOpenAPIJson")
 			}
 		}
 	}
-	simrt.PoolSimBegin(simrt.PoolConfig{Policy: simrt.PoolReal}, seed)
 	applyEnv(e)
 	simrt.CountMapVisits(true)
 	var sb strings.Builder
@@ -186,7 +240,6 @@ func observe(c *Case, e Env, seed uint64) (text string, permuted []string) {
 		sortStrings(permuted)
 	}
 	simrt.CountMapVisits(false)
-	simrt.PoolSimEnd()
 	canonicalEnv()
 	return sb.String(), permuted
 }
@@ -284,6 +337,15 @@ func (c06Engine) Exec(c *Case, job *Job) *Result {
 				what = "prior-history"
 			case rep.Env.MapMode == 0:
 				what = "pool-or-ambient"
+			}
+			if rep.Env.Prior > 0 && !rep.Env.Fresh && rep.Env.MapMode != 0 {
+				// is the prior history alone responsible? same environment without the prior builds
+				e2 := rep.Env
+				e2.Prior = 0
+				if t2, _ := observe(c, e2, c.Seed+uint64(i+1)); t2 == ref {
+					what = "prior-history"
+					rep.Env.MapMode = 0
+				}
 			}
 			comp := diffComponent(ref, text)
 			sites := "all"
